@@ -577,7 +577,7 @@ func TestKnown(t *testing.T)  { kit.RunKnown(t) }
 func TestReplay(t *testing.T) { kit.RunReplay(t) }
 
 func TestPriority(t *testing.T) {
-	kit.Rapid(t, "priority", 100000, 1000000, func(t *rapid.T) {
+	kit.Rapid(t, "priority", 100000, 4000000, func(t *rapid.T) {
 		var cs []comp
 		used := map[int]bool{}
 		prio := func(around int) int {
